@@ -2,6 +2,7 @@
 import hashlib
 import json
 import os
+import re
 import shutil
 import signal
 import subprocess
@@ -39,6 +40,7 @@ def opts_to_argv(opts):
     if opts.get('memout') is not None:
         argv += ['--memout', str(opts['memout'])]
     argv += list(opts.get('extra_argv', []))
+    argv += list(opts.get('misc_argv', []))
     return argv
 
 
@@ -158,7 +160,9 @@ def run_ddsmt(workdir, text, spec, opts, mode='blackbox', plan=None, spec_cc=Non
         r.survivors = list_group(p.pid)
     r.extra_files = sorted(x for x in os.listdir(workdir)
                            if x not in ('tmp', 'trace', 'plan.json', 'main.spec', 'cc.spec', 'cmd.log',
-                                        os.path.basename(infile), os.path.basename(outfile)))
+                                        os.path.basename(infile), os.path.basename(outfile))
+                           # --dump-diffs writes .simp-<n>.diff into the working directory by design
+                           and not ('--dump-diffs' in argv and re.fullmatch(r'\.simp-[0-9]+\.diff', x)))
     r.trace = []
     r.after = None
     if mode != 'blackbox':
@@ -216,7 +220,7 @@ def golden_of(spec, text, role='main'):
 
 def outcome(ev):
     """evaluate() result -> (exit, out, err) as ddSMT's checker sees it."""
-    if ev['fault'] in ('s', 't', 'p', 'a', 'w'):
+    if ev['fault'] in ('s', 't', 'p', 'a', 'm', 'w'):
         return (None, None, None)
     if ev['fault'] == 'v':
         return (-11, '', '')
